@@ -205,7 +205,8 @@ class Op:
 
     def __init__(self, name: str, sites: Callable[[Src], List[Any]], apply: Callable[[Src, Any], Optional[str]],
                  marker: Callable[[Any], str], needle: Callable[[Any], str], late: bool = False,
-                 where: str = "", within: bool = False) -> None:
+                 where: str = "", within: bool = False,
+                 nodes: Optional[Callable[[Src, Any], List[ast.AST]]] = None) -> None:
         self.name = name
         self.sites = sites
         self.apply = apply
@@ -214,6 +215,13 @@ class Op:
         self.late = late  # detected only by the generators / smoke (type inference), not by the front end
         self.where = where  # the collecting loop that detects the error (documentation; names the bucket)
         self.within = within  # two sites inside the SAME class are collected as well (else: different classes)
+        self._nodes = nodes
+
+    def nodes(self, mutated: Src, site: Any) -> List[ast.AST]:
+        """The offending node(s) in the MUTATED text (found by the planted marker unless the operator knows better)."""
+        if self._nodes is not None:
+            return self._nodes(mutated, site)
+        return mutated.carrying(self.marker(site))
 
 
 def _model_classes(src: Src) -> List[ast.ClassDef]:
@@ -531,38 +539,108 @@ def _a_len_of_number(src: Src, site: Any) -> Optional[str]:
     return src.text[:a] + deco + src.text[a:]
 
 
+def _ctor_of(src: Src, name: str) -> Optional[ast.FunctionDef]:
+    c = src.cls(name)
+    return Src.ctor(c) if c is not None else None
+
+
+def _n_inv_no_description(src: Src, site: Any) -> List[ast.AST]:
+    c = src.cls(site[0])
+    return [d for d in Src.invariants(c) if len(d.args) == 1] if c is not None else []
+
+
+def _n_all_invariants(src: Src, site: Any) -> List[ast.AST]:
+    c = src.cls(site[0])
+    return list(Src.invariants(c)) if c is not None else []
+
+
+def _n_ctor_arg(src: Src, site: Any) -> List[ast.AST]:
+    f = _ctor_of(src, site[0])
+    return [a for a in f.args.args if a.arg == site[1]] if f is not None else []
+
+
+def _n_ctors_with_arg(src: Src, site: Any) -> List[ast.AST]:
+    out = []  # type: List[ast.AST]
+    for c in src.classes():
+        f = Src.ctor(c)
+        if f is not None and any(a.arg == site[1] for a in f.args.args):
+            out.append(f)
+    return out
+
+
+def _n_ctor(src: Src, site: Any) -> List[ast.AST]:
+    f = _ctor_of(src, site[0])
+    return [f] if f is not None else []
+
+
+def _n_function(src: Src, site: Any) -> List[ast.AST]:
+    return [f for f in src.functions() if f.name == site[0]]
+
+
+def _n_enum_value(src: Src, site: Any) -> List[ast.AST]:
+    c = src.cls(site[0])
+    if c is None:
+        return []
+    return [s_.value for s_ in c.body
+            if isinstance(s_, ast.Assign) and isinstance(s_.targets[0], ast.Name) and s_.targets[0].id == site[1]]
+
+
+def _n_len_call(src: Src, site: Any) -> List[ast.AST]:
+    out = []  # type: List[ast.AST]
+    for d in src.carrying(f"Zq late {site[0]} {site[1]}"):
+        for anc in src.ancestors(d):
+            if isinstance(anc, ast.Call) and isinstance(anc.func, ast.Name) and anc.func.id == "invariant":
+                for n in ast.walk(anc):
+                    if (isinstance(n, ast.Call) and isinstance(n.func, ast.Name) and n.func.id == "len" and n.args
+                            and isinstance(n.args[0], ast.Attribute) and n.args[0].attr == site[1]):
+                        out.append(n)
+    return out
+
+
+def _n_renamed_class(src: Src, site: Any) -> List[ast.AST]:
+    c = src.cls("I_" + site[0])
+    return [c] if c is not None else []
+
+
+def _n_renamed_prop(src: Src, site: Any) -> List[ast.AST]:
+    p = _find_prop(src, [site[0], "mutable_" + site[1]])
+    return [p] if p is not None else []
+
+
 OPS = [
     Op("dangling-prop-type", _s_props, _a_dangling_prop_type, lambda s: f"Zq_unknown_{s[1]}", lambda s: f"Zq_unknown_{s[1]}",
        where="parse._verify_symbol_table:type-annotations", within=True),
     Op("inv-no-description", _s_invariants, _a_inv_no_description, lambda s: "",
        lambda s: "The invariant must have a human-readable description",
-       where="parse._atok_to_symbol_table:class-definitions", within=True),
+       where="parse._atok_to_symbol_table:class-definitions", within=True, nodes=_n_inv_no_description),
     Op("dup-invariant", _s_classes_with_inv, _a_dup_invariant, lambda s: "",
        lambda s: "The invariants' descriptions need to be unique",
-       where="intermediate._verify_invariant_descriptions_unique"),
+       where="intermediate._verify_invariant_descriptions_unique", nodes=_n_all_invariants),
     Op("optional-arg-non-none-default", _s_ctor_default_args, _a_optional_non_none_default, lambda s: s[1],
        lambda s: "to default to ``None``",
-       where="intermediate._verify_optional_constructor_arguments_default_to_none", within=True),
+       where="intermediate._verify_optional_constructor_arguments_default_to_none", within=True, nodes=_n_ctor_arg),
     Op("prop-not-initialized", _s_initialized, _a_prop_not_initialized, lambda s: "", lambda s: repr(s[1]),
-       where="intermediate._verify_all_properties_are_initialized_in_the_constructor", within=True),
+       where="intermediate._verify_all_properties_are_initialized_in_the_constructor", within=True,
+       nodes=_n_ctors_with_arg),
     Op("ctor-arg-type-mismatch", _s_ctor_args, _a_ctor_type_mismatch, lambda s: s[1], lambda s: "mismatch in type",
-       where="intermediate._verify_constructor_arguments_and_properties_match"),
+       where="intermediate._verify_constructor_arguments_and_properties_match", nodes=_n_ctor_arg),
     Op("ctor-arg-swap", _s_ctor_swappable, _a_ctor_swap, lambda s: "", lambda s: "order of constructor arguments",
-       where="intermediate._verify_constructor_arguments_and_properties_match"),
+       where="intermediate._verify_constructor_arguments_and_properties_match", nodes=_n_ctor),
     Op("reserved-class-prefix", _s_all_classes, _a_reserved_class, lambda s: "I_" + s[0], lambda s: "``I_``",
-       where="parse._verify_symbol_table:reserved-names"),
+       where="parse._verify_symbol_table:reserved-names", nodes=_n_renamed_class),
     Op("reserved-prop-prefix", _s_props, _a_reserved_prop, lambda s: "mutable_" + s[1], lambda s: "The prefix 'mutable'",
-       where="parse._verify_symbol_table:reserved-names", within=True),
+       where="parse._verify_symbol_table:reserved-names", within=True, nodes=_n_renamed_prop),
     Op("unanchored-pattern", _s_pattern_fns, _a_unanchored_pattern, lambda s: s[0], lambda s: repr(s[0]),
-       where="intermediate._verify_patterns_anchored_at_start_and_end"),
+       where="intermediate._verify_patterns_anchored_at_start_and_end", nodes=_n_function),
     Op("dangling-base", _s_model_classes, _a_dangling_base, lambda s: "Zq_base_" + s[0], lambda s: "Zq_base_" + s[0],
        where="parse._verify_symbol_table:dangling-inheritances"),
     Op("enum-literal-nonstring", _s_enum_literals, _a_enum_literal_nonstring, lambda s: s[1], lambda s: "31337",
-       where="parse._atok_to_symbol_table:class-definitions"),
+       where="parse._atok_to_symbol_table:class-definitions", nodes=_n_enum_value),
     Op("bad-doc-reference", _s_all_classes, _a_bad_doc_ref, lambda s: "Zq_missing_" + s[0], lambda s: "Zq_missing_" + s[0],
        where="intermediate._second_pass_to_resolve_references_to_our_types_in_the_descriptions_in_place"),
     Op("len-of-number", _s_int_props_for_len, _a_len_of_number, lambda s: f"Zq late {s[0]} {s[1]}",
-       lambda s: "length", late=True, where="generator:verification-invariants", within=True),
+       lambda s: "length", late=True, where="generator:verification-invariants", within=True,
+       nodes=_n_len_call),
 ]
 OPS_BY_NAME = {op.name: op for op in OPS}
 
